@@ -46,6 +46,59 @@ def apalache_facts(ctx):
                                           "Better is a strict total preorder", "legitimate successor is Better", "honest generator never contradicts itself"],
                 apalache_control_refuted=True)
 
+def recvtime(ctx, prefix="recvtime"):
+    """RecvTime.tla: fork choice under a MOVING wall clock.  TLC checks the model (exhaustively for 3 slots / 5 steps) and
+    generates scripts in simulation; cmd/recv replays them side by side on real nodes with a block time of a few seconds.
+    Returns coverage; violations are reported through ctx.violation under `prefix:...`."""
+    r = ctx.tlc("RecvTime", "RecvTime_exh", workers=4, timeout=600)
+    if r["violation"]:
+        raise Inconclusive("RecvTime.tla violates its own invariants: %s" % r["outpath"])
+    nsim = 260 if ctx.tier == "quick" else 1500
+    g = ctx.tlc("RecvTime", "RecvTime_sim", workers=1, timeout=600, simulate=nsim, depth=8, seed=ctx.seed)
+    scripts = []
+    seen = set()
+    for d in ctx.dumps(g["out"]):
+        k = json.dumps(d, sort_keys=True)
+        if k not in seen:
+            seen.add(k); scripts.append(d)
+    if len(scripts) < 60:
+        raise Inconclusive("RecvTime simulation produced only %d scripts" % len(scripts))
+    scripts = scripts[:220 if ctx.tier == "quick" else 900]
+    sp = ctx.path("recv_scripts.jsonl")
+    with open(sp, "w") as fh:
+        for d in scripts:
+            fh.write(json.dumps(d) + "\n")
+    binp = ctx.go_build("./cmd/recv")
+    res = None
+    for attempt in range(2):          # a run that lost its timing on a loaded machine is repeated once
+        of = ctx.path("recv_%d.json" % attempt)
+        p = ctx.run([binp, sp, of, "4"], timeout=300)
+        if p.returncode != 0 or not os.path.exists(of):
+            if ctx.real_panic:
+                break
+            raise Inconclusive("recv harness failed: " + p.stderr[-1500:])
+        res = json.load(open(of))
+        if res["harness_errors"]:
+            raise Inconclusive("recv harness: %s" % res["harness_errors"][:3])
+        if res["violations"] or res["completed"] >= 0.7 * res["scripts"]:
+            break
+        log("[recv] only %d of %d scripts kept their timing; retrying" % (res["completed"], res["scripts"]))
+    if res is None:
+        return {}
+    log("[recv] scripts=%d completed=%d timing-inconclusive=%d steps=%d tie-breaks=%d refused(tip in time)=%d after-rejected-child=%d restarts=%d wall=%.0fs" % (
+        res["scripts"], res["completed"], res["timing_inconclusive"], res["steps"], res["tie_breaks_performed"],
+        res["competitors_refused_tip_in_time"], res["competitors_offered_after_a_rejected_child"], res["restarts"], res["wall_s"]))
+    for v in res["violations"]:
+        ctx.violation(prefix + ":" + v["key"].split(":", 1)[1], v["what"], v.get("replay"))
+    if not res["violations"]:
+        if res["completed"] < 0.7 * res["scripts"]:
+            raise Inconclusive("moving-clock replay: only %d of %d scripts could be placed inside their slots (machine too loaded)" % (res["completed"], res["scripts"]))
+        if res["tie_breaks_performed"] < 5 or res["competitors_refused_tip_in_time"] < 5 or res["competitors_offered_after_a_rejected_child"] < 5:
+            raise Inconclusive("moving-clock replay is vacuous: %s" % {k: res[k] for k in ("tie_breaks_performed", "competitors_refused_tip_in_time", "competitors_offered_after_a_rejected_child")})
+    return dict(moving_clock_scripts=res["completed"], moving_clock_steps=res["steps"], moving_clock_tie_breaks=res["tie_breaks_performed"],
+                moving_clock_competitors_refused_tip_in_time=res["competitors_refused_tip_in_time"],
+                moving_clock_competitors_after_rejected_child=res["competitors_offered_after_a_rejected_child"])
+
 def run(ctx):
     from props import net as _net
     _net.maybe_replay(ctx, LEVEL)
@@ -80,6 +133,8 @@ def run(ctx):
     for v in fv:
         ctx.violation("forkchoice-sequence:" + v["key"], "%s: %s" % (v["script"], v["what"]), v.get("replay"))
     apa["fork_choice_sequences_replayed"] = nfixed
+    # ... and on WHEN the tip was received: RecvTime.tla replayed under a moving wall clock
+    apa.update(recvtime(ctx))
     # chain-level rule through the real liskbft.Module: IsHeaderContradictingChain probes in the BFT trace
     b2 = ctx.go_build("./cmd/c02")
     chains = 300 if ctx.tier == "quick" else 3000
